@@ -63,6 +63,7 @@ import (
 	errs "github.com/cloudwego/hertz/pkg/common/errors"
 	"github.com/cloudwego/hertz/pkg/common/hlog"
 	"github.com/cloudwego/hertz/pkg/common/timer"
+	"github.com/cloudwego/hertz/pkg/common/verifhook"
 	"github.com/cloudwego/hertz/pkg/network"
 	"github.com/cloudwego/hertz/pkg/network/dialer"
 	"github.com/cloudwego/hertz/pkg/protocol"
@@ -798,6 +799,7 @@ func (c *HostClient) acquireConn(dialTimeout time.Duration) (cc *clientConn, inP
 	startCleaner := false
 
 	var n int
+	verifhook.Yield("acquireConn", c)
 	c.connsLock.Lock()
 	n = len(c.conns)
 	if n == 0 {
@@ -853,8 +855,10 @@ func (c *HostClient) acquireConn(dialTimeout time.Duration) (cc *clientConn, inP
 
 		select {
 		case <-w.ready:
+			verifhook.Yield("acquireConn.woken", w)
 			return w.conn, true, w.err
 		case <-tc.C:
+			verifhook.Yield("acquireConn.timeout", w)
 			return nil, true, errs.ErrNoFreeConns
 		}
 	}
@@ -874,6 +878,7 @@ func (c *HostClient) acquireConn(dialTimeout time.Duration) (cc *clientConn, inP
 }
 
 func (c *HostClient) queueForIdle(w *wantConn) {
+	verifhook.Yield("queueForIdle", w)
 	c.connsLock.Lock()
 	defer c.connsLock.Unlock()
 	if c.connsWait == nil {
@@ -884,14 +889,17 @@ func (c *HostClient) queueForIdle(w *wantConn) {
 }
 
 func (c *HostClient) dialConnFor(w *wantConn) {
+	verifhook.Yield("dialConnFor", w)
 	conn, err := c.dialHostHard(c.DialTimeout)
 	if err != nil {
+		verifhook.Yield("dialConnFor.deliverErr", w)
 		w.tryDeliver(nil, err)
 		c.decConnsCount()
 		return
 	}
 
 	cc := acquireClientConn(conn)
+	verifhook.Yield("dialConnFor.deliver", w)
 	delivered := w.tryDeliver(cc, nil)
 	if !delivered {
 		// not delivered, return idle connection
@@ -904,6 +912,7 @@ func (c *HostClient) dialConnFor(w *wantConn) {
 // "keep-alive" state. It does not interrupt any connections currently
 // in use.
 func (c *HostClient) CloseIdleConnections() {
+	verifhook.Yield("CloseIdleConnections", c)
 	c.connsLock.Lock()
 	scratch := append([]*clientConn{}, c.conns...)
 	for i := range c.conns {
@@ -935,6 +944,7 @@ func (c *HostClient) connsCleaner() {
 		currentTime := time.Now()
 
 		// Determine idle connections to be closed.
+		verifhook.Yield("connsCleaner.scan", c)
 		c.connsLock.Lock()
 		conns := c.conns
 		n := len(conns)
@@ -966,6 +976,7 @@ func (c *HostClient) connsCleaner() {
 		}
 
 		// Determine whether to stop the connsCleaner.
+		verifhook.Yield("connsCleaner.stop", c)
 		c.connsLock.Lock()
 		mustStop := c.connsCount == 0
 		if mustStop {
@@ -981,12 +992,14 @@ func (c *HostClient) connsCleaner() {
 }
 
 func (c *HostClient) closeConn(cc *clientConn) {
+	verifhook.Yield("closeConn", cc)
 	c.decConnsCount()
 	cc.c.Close()
 	releaseClientConn(cc)
 }
 
 func (c *HostClient) decConnsCount() {
+	verifhook.Yield("decConnsCount", c)
 	if c.MaxConnWaitTimeout <= 0 {
 		c.connsLock.Lock()
 		c.connsCount--
@@ -1032,6 +1045,7 @@ func releaseClientConn(cc *clientConn) {
 var clientConnPool sync.Pool
 
 func (c *HostClient) releaseConn(cc *clientConn) {
+	verifhook.Yield("releaseConn", cc)
 	cc.lastUseTime = time.Now()
 	if c.MaxConnWaitTimeout <= 0 {
 		c.connsLock.Lock()
@@ -1249,6 +1263,7 @@ func (w *wantConn) tryDeliver(conn *clientConn, err error) bool {
 // cancel marks w as no longer wanting a result (for example, due to cancellation).
 // If a connection has been delivered already, cancel returns it with c.releaseConn.
 func (w *wantConn) cancel(c *HostClient, err error) {
+	verifhook.Yield("wantConn.cancel", w)
 	w.mu.Lock()
 	if w.conn == nil && w.err == nil {
 		close(w.ready) // catch misbehavior in future delivery
